@@ -324,6 +324,22 @@ impl FrameDescriptionEntry {
     }
 }
 
+/// CHECKPOINT obligation of CommonInformationEntry::write: when the instruction loop starts, the section (`actual`) is exactly
+/// the old section followed by the header fields (`spec` = after_header(old view)).  A proof fn so that the clause has its own
+/// tagged line (a failed call is reported at this `requires`).
+pub proof fn checkpoint_cie_header(actual: WView, spec: WView)
+    requires
+        actual == spec, // [C14:cie-header]
+{
+}
+
+/// the same for FrameDescriptionEntry::write (`spec` = after_fde_header(old view, ..))
+pub proof fn checkpoint_fde_header(actual: WView, spec: WView)
+    requires
+        actual == spec, // [C14:fde-header]
+{
+}
+
 /// the end of an entry: `w1` ends with the patch of the length word (at `length_word_offset` of the entry start `w0`) to the
 /// number of bytes after the initial length field
 pub open spec fn entry_closed(w0: WView, w1: WView, format: Format) -> bool {
